@@ -56,6 +56,11 @@ PATTERNS = {
     # search C_a-C_b-H ; replacement keeps C_a and brings N: C_b and H are removed (an atom another match may merely retain)
     'CCH->CN': (_pat(['C', 'C', 'H'], [(0, 0, 0), (1.5, 0, 0), (2.0, 0.9, 0)]),
                 _pat(['C', 'N'], [(0, 0, 0), (1.4, 0.2, 0)], charges=[0.0, -0.3], groups=[0, 1], bonds=[(0, 1)], bond_types=[0], tables=True, labels=['pC', 'pN'])),
+    # both patterns on ONE force-field type table with two types of the same element (cut from the same LAMMPS data file): the replacement
+    # re-types the first carbon in place (C_R -> C_3: same element, same coordinates = a common atom that stays and adopts the new type)
+    'CCH->CCF-retyped': (_pat(['C', 'C', 'H'], [(0, 0, 0), (1.5, 0, 0), (2.0, 0.9, 0)], types=[0, 1, 2], type_elements=['C', 'C', 'H', 'F'], labels=['C_R', 'C_3', 'H_', 'F_']),
+                         _pat(['C', 'C', 'F'], [(0, 0, 0), (1.5, 0, 0), (2.1, 1.0, 0)], types=[1, 1, 3], type_elements=['C', 'C', 'H', 'F'], labels=['C_R', 'C_3', 'H_', 'F_'],
+                              charges=[0.11, 0.22, -0.33], groups=[5, 6, 7], bonds=[(1, 2)], bond_types=[1], tables=True)),
     'H->F': (_pat(['H'], [(0, 0, 0)]), _pat(['F'], [(0, 0, 0)], charges=[-0.1], groups=[0])),
     'CH->nothing': (_pat(['C', 'H'], [(0, 0, 0), (1.1, 0, 0)]), _pat([], [])),
     'CHH->CHH': (_pat(['C', 'H', 'H'], [(0, 0, 0), (1.1, 0, 0), (-0.4, 1.0, 0)]),
@@ -79,7 +84,10 @@ def make_pattern(ctx, d, pair=True):
     if not el:
         return Atoms()
     kw = {}
-    if 'types' in d:
+    if 'type_elements' in d:
+        kw.update(atom_types=d['types'], atom_type_elements=list(d['type_elements']))
+        ntypes = len(d['type_elements'])
+    elif 'types' in d:
         uniq = list(dict.fromkeys(el))
         kw.update(atom_types=d['types'], atom_type_elements=uniq)
         ntypes = len(uniq)
